@@ -50,20 +50,22 @@ Fixpoint dec_num (ds : bytes) (acc : Z) : Z :=
   end.
 Definition digits_of (s : bytes) : bytes := fst (span is_digit s).
 
+(* the number an optional fraction adds to the integer digit q *)
+Definition q_lit_frac (q : Z) (s' : bytes) : option (Z * Z) :=
+  match s' with
+  | c :: s'' => if Nat.eqb c 46
+                then let ds := digits_of s'' in
+                     Some ((q * 10 ^ Z.of_nat (length ds) + dec_num ds 0)%Z, (10 ^ Z.of_nat (length ds))%Z)
+                else Some (q, 1%Z)
+  | [] => Some (q, 1%Z)
+  end.
+
 (* the number a q literal denotes, as numerator/denominator; None when expectQuality rejects it *)
 Definition q_literal (s : bytes) : option (Z * Z) :=
-  let frac (q : Z) (s' : bytes) :=
-    match s' with
-    | c :: s'' => if Nat.eqb c 46
-                  then let ds := digits_of s'' in
-                       Some ((q * 10 ^ Z.of_nat (length ds) + dec_num ds 0)%Z, (10 ^ Z.of_nat (length ds))%Z)
-                  else Some (q, 1%Z)
-    | [] => Some (q, 1%Z)
-    end in
   match s with
   | [] => None
-  | c :: r => if Nat.eqb c 48 then frac 0%Z r
-              else if Nat.eqb c 49 then frac 1%Z r
-              else if Nat.eqb c 46 then frac 0%Z s
+  | c :: r => if Nat.eqb c 48 then q_lit_frac 0%Z r
+              else if Nat.eqb c 49 then q_lit_frac 1%Z r
+              else if Nat.eqb c 46 then q_lit_frac 0%Z s
               else None
   end.
